@@ -18,6 +18,7 @@ import (
 	"pgregory.net/rapid"
 
 	"verifjd/rec"
+	"verifjd/val"
 )
 
 func tier() string {
@@ -183,3 +184,5 @@ func guarded[C any](check func(C, *rec.Rec) error, c C, r *rec.Rec) (err error) 
 	}()
 	return check(c, r)
 }
+
+func valParse(s string) (interface{}, error) { return val.Parse(s) }
